@@ -1615,3 +1615,117 @@ theorem MotionTie_go_xf (c : GscribModel.Transform.Core) (b : B) (rapid : Bool) 
     refine ⟨trivial, ?_, ?_⟩
     · rfl
     · simp [absB', conv, partCodes, partAx, partWords]
+
+/-! ## The bypass commands and `set_axis` against the C04 model -/
+namespace GscribModel.MotionTie
+open GscribModel.PointTie
+/-- a statement of the C04 model as the ties compare statements: instruction text, axis words, other words -/
+def stmtView : GscribModel.Transform.Stmt → List String × Pt × List (String × Rat)
+  | .mode rel => ([if rel then "G91" else "G90"], {}, [])
+  | .go rapid w => ([if rapid then "G0" else "G1"], ofT w, [])
+  | .set w => (["G92"], ofT w, [])
+end GscribModel.MotionTie
+
+
+namespace GscribModel.MotionTie
+theorem stepMoveAbs_plain (b : B) (rapid : Bool) (req : Pt) (h : Rat) (hh : b.hooks = [])
+    (hk : b.bounds.okAxes (b.axes.replace req) = true) :
+    stepMoveAbs b rapid (VPt.ofPt req) [] h =
+      (let b2 := (({ b with rel := false, srel := false } : B).track []).commitAxes (b.axes.replace req) req []
+       let g : Stmt := { codes := [if rapid then .G0 else .G1], ax := req, words := [] }
+       if b.rel then { accept { b2 with rel := true, srel := true } [modeStmt false, g, modeStmt true] with calls := [] }
+       else { accept b2 [g] with calls := [] }) := by
+  have hf : VParams.fin? ([] : VParams) = some [] := rfl
+  have ht : ∀ b' : B, b'.okTrack [] = true := fun _ => rfl
+  simp only [stepMoveAbs, ofPt_fin, hf, hk, hh, ht, List.isEmpty_nil, Bool.not_true, Bool.and_false, Bool.false_eq_true, if_false]
+
+theorem agrees_ok (r : Res) (g : BSt × Option Err) (hag : AgreesM r g) (hok : r.out = .ok) :
+    g.2 = none ∧ g.1._current_axes = r.b.axes ∧ g.1.out.map conv = r.stmts.map view := by
+  obtain ⟨h1, h2, h3, _⟩ := hag
+  refine ⟨?_, ?_, h3.symm⟩
+  · rw [hok] at h1
+    cases hg : g.2 with
+    | none => rfl
+    | some e => rw [hg] at h1; cases h1
+  · have := congrArg BSt._current_axes h2
+    exact this.symm
+end GscribModel.MotionTie
+
+open GscribModel.MotionTie GscribModel.PointTie in
+/-- **`move_absolute()` / `rapid_absolute()` are the C04 model's `goAbs`** (they bypass the transform: the raw request is written, bracketed by
+    `G90` … `G91` in relative mode, and replaces the requested coordinates of the tracked position) -/
+theorem MotionTie_goabs_xf (c : GscribModel.Transform.Core) (b : B) (rapid : Bool) (req : GscribModel.Transform.Pt) (h : Rat)
+    (hax : b.axes = ofT c.axes) (hrel : b.rel = c.rel) (hsync : b.srel = b.rel) (hh : b.hooks = []) (hb : b.bounds.axes = none) :
+    let g := if rapid then GCodeBuilder.rapid_absolute (absB b) (ofT req) [] h else GCodeBuilder.move_absolute (absB b) (ofT req) [] h
+    g.2 = none ∧ g.1._current_axes = ofT (c.goAbs rapid req).1.axes ∧ g.1.out.map conv = (c.goAbs rapid req).2.map stmtView := by
+  have hd : DoubleFS [] := by
+    intro ws hw; cases hw
+    refine ⟨?_, ?_⟩
+    · intro f hf; cases hf
+    · intro s hs; cases hs
+  have hemp : b.hooks.isEmpty = true := by rw [hh]; rfl
+  have hd' : DoubleFS (if b.hooks.isEmpty then [] else applyHooks { b with rel := false, srel := false } h []) := by rw [hemp]; exact hd
+  have hrep : b.axes.replace (ofT req) = ofT (GscribModel.Transform.Pt.replace c.axes req) := by
+    rw [hax, ← PointTie_replace]; exact PointTie_transform_replace_pt c.axes req
+  have hk : b.bounds.okAxes (b.axes.replace (ofT req)) = true := okAxes_none _ _ hb
+  cases rapid
+  · simp only [Bool.false_eq_true, if_false]
+    have ag := MotionTie_move_absolute b (ofT req) [] h hsync hd hd'
+    simp only [step, stepMoveAbs_plain b false (ofT req) h hh hk] at ag
+    by_cases hr : b.rel = true
+    · have hc : c.rel = true := by rw [← hrel]; exact hr
+      simp only [hr, if_true] at ag
+      obtain ⟨g1, g2, g3⟩ := agrees_ok _ _ ag rfl
+      refine ⟨g1, ?_, ?_⟩
+      · rw [g2]; simp only [GscribModel.Transform.Core.goAbs]; exact hrep
+      · rw [g3]; simp only [GscribModel.Transform.Core.goAbs, hc, if_true]; rfl
+    · have hr' : b.rel = false := by simpa using hr
+      have hc : c.rel = false := by rw [← hrel]; exact hr'
+      simp only [hr', Bool.false_eq_true, if_false] at ag
+      obtain ⟨g1, g2, g3⟩ := agrees_ok _ _ ag rfl
+      refine ⟨g1, ?_, ?_⟩
+      · rw [g2]; simp only [GscribModel.Transform.Core.goAbs]; exact hrep
+      · rw [g3]; simp only [GscribModel.Transform.Core.goAbs, hc, Bool.false_eq_true, if_false]; rfl
+  · simp only [if_true]
+    have ag := MotionTie_rapid_absolute b (ofT req) [] h hsync hd
+    simp only [step, stepMoveAbs_plain b true (ofT req) h hh hk] at ag
+    by_cases hr : b.rel = true
+    · have hc : c.rel = true := by rw [← hrel]; exact hr
+      simp only [hr, if_true] at ag
+      obtain ⟨g1, g2, g3⟩ := agrees_ok _ _ ag rfl
+      refine ⟨g1, ?_, ?_⟩
+      · rw [g2]; simp only [GscribModel.Transform.Core.goAbs]; exact hrep
+      · rw [g3]; simp only [GscribModel.Transform.Core.goAbs, hc, if_true]; rfl
+    · have hr' : b.rel = false := by simpa using hr
+      have hc : c.rel = false := by rw [← hrel]; exact hr'
+      simp only [hr', Bool.false_eq_true, if_false] at ag
+      obtain ⟨g1, g2, g3⟩ := agrees_ok _ _ ag rfl
+      refine ⟨g1, ?_, ?_⟩
+      · rw [g2]; simp only [GscribModel.Transform.Core.goAbs]; exact hrep
+      · rw [g3]; simp only [GscribModel.Transform.Core.goAbs, hc, Bool.false_eq_true, if_false]; rfl
+
+open GscribModel.MotionTie GscribModel.PointTie in
+/-- **`set_axis()` is the C04 model's `setAxis`**: `G92` with the raw request, no transform applied -/
+theorem MotionTie_setaxis_xf (c : GscribModel.Transform.Core) (b : B) (req : GscribModel.Transform.Pt) (h : Rat)
+    (hax : b.axes = ofT c.axes) (hb : b.bounds.axes = none) :
+    let g := GCodeBuilder.set_axis (absB b) (ofT req) [] h
+    g.2 = none ∧ g.1._current_axes = ofT (c.setAxis req).1.axes ∧ g.1.out.map conv = (c.setAxis req).2.map stmtView := by
+  have hrep : b.axes.replace (ofT req) = ofT (GscribModel.Transform.Pt.replace c.axes req) := by
+    rw [hax, ← PointTie_replace]; exact PointTie_transform_replace_pt c.axes req
+  have hk : b.bounds.okAxes (b.axes.replace (ofT req)) = true := okAxes_none _ _ hb
+  have hf : VParams.fin? ([] : VParams) = some [] := rfl
+  have ag := MotionTie_set_axis b (ofT req) [] h
+  simp only [step, stepSetAxis, ofPt_fin, hf, hk, Bool.not_true, Bool.false_eq_true, if_false] at ag
+  obtain ⟨g1, g2, g3⟩ := agrees_ok _ _ ag rfl
+  refine ⟨g1, ?_, ?_⟩
+  · rw [g2]; simp only [GscribModel.Transform.Core.setAxis]; exact hrep
+  · rw [g3]; rfl
+
+open GscribModel.MotionTie GscribModel.PointTie in
+/-- `MotionTie_go_xf` in the same vocabulary: what the translated `move()` / `rapid()` write is the model's statement list -/
+theorem MotionTie_go_stmt_xf (c : GscribModel.Transform.Core) (b : B) (rapid : Bool) (req : GscribModel.Transform.Pt) (h : Rat)
+    (hax : b.axes = ofT c.axes) (hrel : b.rel = c.rel) (hh : b.hooks = []) (hb : b.bounds.axes = none) :
+    (if rapid then GCodeCore.rapid_T (xfOf c.tr) (absB b) (ofT req) [] h else GCodeCore.move_T (xfOf c.tr) (absB b) (ofT req) [] h).1.out.map conv =
+      (c.go rapid req).2.map stmtView := by
+  rw [(MotionTie_go_xf c b rapid req h hax hrel hh hb).2.2]
+  rfl
